@@ -5,12 +5,12 @@ dir=$1; shift
 cd /verif
 git -C /repo diff --quiet || { echo "/repo is dirty, refusing"; exit 9; }
 PYTHONPATH=/repo/src /venv/bin/python $dir/demo.py >/dev/null 2>&1; before=$?
-git -C /repo apply $dir/patch.diff || { echo "patch does not apply"; exit 9; }
+git -C /repo apply $(realpath $dir/patch.diff) || { echo "patch does not apply"; exit 9; }
 PYTHONPATH=/repo/src /venv/bin/python $dir/demo.py >/dev/null 2>&1; after=$?
 echo "demo: exit $before without the change, exit $after with it"
 for p in "$@"; do
   s=$(date +%s)
-  out=$(timeout 1500 ./vcheck $p quick 2>&1); rc=$?
+  out=$(PVC_EVIDENCE_DIR=/tmp/seed_evidence timeout 1500 ./vcheck $p quick 2>&1); rc=$?
   echo "$p exit=$rc $(( $(date +%s) - s ))s :: $(echo "$out" | grep -E '^(VIOLATION|UNDECIDED|ENGINE-ERROR)' | head -4 | cut -c1-260 | tr '\n' '|')"
 done
 git -C /repo checkout -- .
